@@ -2,7 +2,7 @@
 From Coq Require Extraction.
 From Coq Require Import ExtrOcamlBasic.
 From Coq Require Import ZArith QArith List.
-From RLV Require Import Model.Logger Model.Buffers Model.BufferRun Model.Persist Model.Num Model.PrioNum Model.Checkpointing Model.Tabular Model.Tensor Model.Blocks Model.Returns Model.Dual Model.Losses.
+From RLV Require Import Model.Logger Model.Buffers Model.BufferRun Model.Persist Model.Num Model.PrioNum Model.Checkpointing Model.Tabular Model.Tensor Model.Blocks Model.Returns Model.Dual Model.Losses Model.Heads Model.Greedy.
 Extraction Language OCaml.
 Extraction "../build/ocaml/model.ml"
   (* base *) Nat.add Qred Qplus Qmult Qminus Qdiv Qopp Qle_bool Qeq_bool
@@ -14,4 +14,5 @@ Extraction "../build/ocaml/model.ml"
   (* Blocks *) two_hot_encoding two_hot_decoding two_hot_ce_row huber masked_mse_loss avg_l1_norm linear_schedule_k transition_steps make_two_hot_bins log_softmax
   (* Returns *) reward_to_go compute_gae n_step_return a2c_batch ppo_gae ppo_flat_gae zip4
   (* Losses *) dual_ops dual_sg ddpg_loss td3_loss sac_loss td3_lap_loss td7_target td7_critic_loss mrq_loss dqn_loss ddqn_loss ddqn_per_loss sale_loss
+  (* Heads *) softmax cat_logprob cat_entropy gauss_std gauss_logpdf gauss_entropy gauss_sample tanh_scaled half_range mid_range eps_greedy dqn_choice greedy_net
   (* Persist *) rb_crash lap_crash sb_crash sbp_crash mtl_crash mtu_crash orbax_restore orbax_reload load_pickle save_pickle restore_checkpoint.
